@@ -1,4 +1,4 @@
-import DclabModel.Model.Cli
+import DclabModel.Model.CliTasks
 import DclabModel.DriveUtil
 /-! Line-protocol driver for the crash-safety automaton (C10).
 
@@ -7,11 +7,25 @@ import DclabModel.DriveUtil
         u<p> unlink · c<p> create · w<p> write · x<p> close · r<p> openRead · a<p> openAppend ·
         m<p>:<q> rename; the id of a write is its position in the trace.
         Files in <existing> start closed with content [1000000+p].
-    → `conforms <n> <states>` | `violates <k> <states>`  where <states> has, per output path
+    → `conforms <n> <states>` | `violates <k> <states>` | `refused <n> <states>` (the roles are not
+      well-formed — an output or temporary path coincides with an input — and the trace performs no
+      mutating operation: `refused_untouched`)  where <states> has, per output path
       (joined by `|`), one letter per crash point k = 0..n for the state after `fail tr k`:
       u = untouched initial file, a = absent, c = complete (final closed file), p = anything else.
       The last word is `fresh` or `stale:<k>` (operation k looks at a leftover temporary that
       was neither removed nor truncated before, `DclabModel.Cli.freshFrom`).
+
+    tmpl <task> <ins> <outs> <temps> <existing> <params> <ops>
+        is the recorded trace <ops> an instance of the task's template (`Model/CliTasks.lean`)?
+        <params> (comma separated numbers) per task:
+          copy      so,st,n                       (condense, repack)
+          compress  so,st,n1,n2
+          join      so,st,n0,n1,first,#probes,probe…,(src,a,b)…
+          split     #aux,aux…,(n1,n2) per part    (parts = temps zipped with outs)
+          tdms      #staleOuts,o…,#staleTemps,t…,(n1,n2) per part
+    → `instance|drift:<k> hyp:<0|1> tconf:<0|1> tfresh:<0|1>`  (k = first position at which the
+      trace leaves the template; hyp = the hypotheses of the template theorems hold for these
+      roles; tconf / tfresh = `Conforms` / `freshFrom` evaluated on the template itself)
 -/
 open DclabModel.Cli DclabModel.DriveUtil
 
@@ -53,8 +67,60 @@ def statesOf (fs0 : FS) (tr : List Op) (o : Path) : String :=
       (fs', classify init final (get (closeAll fs') o) :: st.2)) (fs0, [classify init final (get (closeAll fs0) o)])
   String.ofList acc.reverse
 
+def pairsOf : List Nat → Option (List (Nat × Nat))
+  | [] => some []
+  | a :: b :: r => (pairsOf r).map ((a, b) :: ·)
+  | _ => none
+
+def triplesOf : List Nat → Option (List Seg)
+  | [] => some []
+  | s :: a :: b :: r => (triplesOf r).map ({ src := s, a := a, b := b } :: ·)
+  | _ => none
+
+def mkParts : List Nat → List Nat → List (Nat × Nat) → Option (List Part)
+  | [], [], [] => some []
+  | t :: ts, o :: os, (a, b) :: ns => (mkParts ts os ns).map ({ t := t, o := o, n1 := a, n2 := b } :: ·)
+  | _, _, _ => none
+
+/-- the template of `task` for the given roles and parameters -/
+def templateOf (task : String) (ins outs temps ps : List Nat) : Option (List Op) :=
+  match task, ins, outs, temps, ps with
+  | "copy", [i], [o], [t], [so, st, n] => some (copyTrace i o t (so != 0) (st != 0) n)
+  | "compress", [i], [o], [t], [so, st, n1, n2] =>
+    some (compressTrace i o t (so != 0) (st != 0) n1 n2)
+  | "join", _, [o], [t], so :: st :: n0 :: n1 :: first :: np :: rest =>
+    (triplesOf (rest.drop np)).map fun segs =>
+      joinTrace (rest.take np) first o t (so != 0) (st != 0) n0 n1 segs
+  | "split", [i], _, _, na :: rest =>
+    (pairsOf (rest.drop na)).bind (mkParts temps outs) |>.map (splitTrace i (rest.take na))
+  | "tdms", _, _, _, nso :: rest =>
+    match rest.drop nso with
+    | nst :: rest2 =>
+      (pairsOf (rest2.drop nst)).bind (mkParts temps outs) |>.map
+        (tdmsTrace (rest.take nso) (rest2.take nst))
+    | [] => none
+  | _, _, _, _, _ => none
+
+def bit (b : Bool) : String := if b then "1" else "0"
+
 def handle (_ : Unit) (line : String) : Unit × String :=
   match words line with
+  | ["tmpl", task, ins, outs, temps, ex, ps, ops] =>
+    match parseList ins, parseList outs, parseList temps, parseList ex, parseList ps, parseOps ops with
+    | some ins, some outs, some temps, some ex, some ps, some tr =>
+      match templateOf task ins outs temps ps with
+      | none => ((), "bad-op")
+      | some tmpl =>
+        let r : Roles := { ins := ins, outs := outs, temps := temps }
+        let fs0 : FS := ex.eraseDups.map fun p => (p, { content := [1000000 + p], openW := false })
+        let all := temps ++ outs
+        let hyp := r.wf && all.eraseDups.length == all.length
+        let inst := match firstDiff tmpl (eraseIds tr) 0 with
+          | none => "instance"
+          | some k => s!"drift:{k}"
+        let tfresh := freshFrom r.temps (absentTemps r fs0) tmpl
+        ((), s!"{inst} hyp:{bit hyp} tconf:{bit (Conforms r fs0 tmpl)} tfresh:{bit tfresh}")
+    | _, _, _, _, _, _ => ((), "bad-op")
   | ["trace", ins, outs, temps, ex, ops] =>
     match parseList ins, parseList outs, parseList temps, parseList ex, parseOps ops with
     | some ins, some outs, some temps, some ex, some tr =>
@@ -65,6 +131,8 @@ def handle (_ : Unit) (line : String) : Unit × String :=
         | none => "fresh"
         | some k => s!"stale:{k}"
       if Conforms r fs0 tr then ((), s!"conforms {tr.length} {states} {fresh}")
+      else if !r.wf && nonMutating tr then ((), s!"refused {tr.length} {states} {fresh}")
+      else if !r.wf then ((), s!"violates {(firstMutating tr 0).getD 0} {states} {fresh}")
       else
         let k := if r.wf then (firstBad r fs0 [] tr 0).getD 0 else 0
         ((), s!"violates {k} {states} {fresh}")
